@@ -165,6 +165,8 @@ func CmdLock(cfg RunConfig) int {
 		st := o.Status
 		switch {
 		case st == "discharged" || st == "cover-sat":
+		case o.Cover && st != "cover-unsat":
+			st = "cover-undecided"
 		case known[o.Name]:
 			st = "known-finding"
 		default:
